@@ -43,6 +43,12 @@ FAULT_KINDS = ['fail', 'error', 'setup_error', 'teardown_error',
                'setup_fail']
 
 
+PYTHONS = ['/root/.pyenv/versions/3.9.18/bin/python',
+           '/root/.pyenv/versions/3.10.13/bin/python',
+           '/root/.pyenv/versions/3.11.7/bin/python',
+           '/root/.pyenv/versions/3.13.0/bin/python']
+
+
 def batch_size(tier):
     return 12
 
@@ -123,7 +129,12 @@ def make_case(rng, idx, tier):
     # a real process: stdout / stderr are pipes with the interpreter's own
     # encoding and error handler (the in-process recorder accepts any str)
     mode = 'cli' if rng.random() < 0.15 else 'in'
-    return {'spec': spec, 'plan': plan, 'opts': opts, 'mode': mode}
+    # half of the CLI runs use another installed CPython (unittest's result
+    # protocol and the traceback module differ between 3.9 ... 3.13)
+    py = rng.choice(PYTHONS) if mode == 'cli' and rng.random() < 0.5 \
+        else None
+    return {'spec': spec, 'plan': plan, 'opts': opts, 'mode': mode,
+            'python': py}
 
 
 def cases(tier, seed):
@@ -159,7 +170,11 @@ def run_case(case):
     import gc
     g0 = len(gc.garbage)
     try:
-        w = common.run_world(spec, plan, opts, mode=case.get('mode', 'in'))
+        py = case.get('python')
+        if py and not os.path.exists(py):
+            py = None
+        w = common.run_world(spec, plan, opts, mode=case.get('mode', 'in'),
+                             python=py)
     finally:
         del gc.garbage[g0:]
     viol = []
@@ -189,6 +204,7 @@ def run_case(case):
                   if e['k'].startswith('test.') and e['pid'] != parent}
     counters['child_cases'] = 1 if child_pids else 0
     counters['cli_cases'] = 1 if case.get('mode') == 'cli' else 0
+    counters['other_python_cases'] = 1 if py else 0
     counters['color_or_progress'] = 1 if (opts.get('color') or
                                           opts.get('progress')) else 0
     if case.get('mode') == 'cli' and w.raised is None and \
@@ -279,7 +295,11 @@ def run_case(case):
             if model.closure(short) & su_fail:
                 continue
             counters['names_checked'] = counters.get('names_checked', 0) + 1
-            s0 = vworld.test_str(tid)
+            pyver = None
+            m = re.search(r'/(\d+)\.(\d+)\.\d+/bin/python', py or '')
+            if m:
+                pyver = (int(m.group(1)), int(m.group(2)))
+            s0 = vworld.test_str(tid, pyver)
             if not any(n.startswith(s0) for n in listed):
                 viol.append({'rule': 'failure-not-recorded-against-its-test',
                              'mech': 'contain-name-missing',
